@@ -452,6 +452,9 @@ class InProtocolBase(ProtocolMixin):
             if match:
                 tz_hr, tz_min = [int(match.group(x))
                                                    for x in ("tz_hr", "tz_min")]
+                # the sign belongs to the whole offset, not just to the hours
+                if match.group("tz_hr").startswith('-'):
+                    tz_min = -tz_min
                 tz = FixedOffset(tz_hr * 60 + tz_min, {})
                 retval = _parse_datetime_iso_match(match, tz=tz)
                 if astz is not None:
